@@ -103,7 +103,7 @@ Definition dbp_prep (bits : N) (s : dbp) : outcome dbp :=
 (* unpack `count` deltas of the current miniblock *)
 Definition dbp_step (bits : N) (count : nat) (s2 : dbp) : outcome (list N * dbp) :=
   '(raw, buf1, pos1) <- bit_unpack bits (d_w s2) count (d_buf s2) (d_pos s2) ;;
-  if d_rem s2 <? N.of_nat count then Panic else
+  if d_rem s2 <? N.of_nat count then Err else
   let '(vs, last) := dbp_accum bits (d_min s2) (d_prev s2) raw in
   let mv := d_mb_val s2 + N.of_nat count in
   Ok (vs, mk_dbp buf1 (d_mbc s2) (d_total s2) (d_rem s2 - N.of_nat count) (d_widths s2)
@@ -520,7 +520,7 @@ Qed.
 Example dbp_read_split_needs_avail :
   let s := mk_dbp [] 4 4 3 [0; 0; 0; 0] 0 0 32 1 1 true 0 0 in
   0 < d_per s /\
-  dbp_read 32 (4 + 29) s = Panic /\
+  dbp_read 32 (4 + 29) s = Err /\
   ('(v1, s1) <- dbp_read 32 4 s ;; '(v2, s2) <- dbp_read 32 29 s1 ;; Ok (v1 ++ v2, s2)) =
   Ok ([1; 2; 3; 4] ++ repeat 0 29, mk_dbp [] 4 4 0 [0; 0; 0; 0] 0 3 32 1 4 false 0 0).
 Proof.
